@@ -142,15 +142,47 @@ def header_vars(loop):
     return out
 
 
-def check_item_loop(chk, rule, fn, loop, what):
-    """the loop's cross-iteration state is confined to the variables its own header names"""
+def self_relative_only(fn, loop, d):
+    """every definition of d inside the loop moves it relative to its own value (d++, d += e, d = d + e): a counter or cursor"""
+    ids = set()
+    for part in ("cond", "body", "inc"):
+        if loop.get(part) is not None:
+            for x in walk(loop[part]):
+                ids.add(x["i"])
+    for x in walk(fn.body):
+        if x["i"] not in ids:
+            continue
+        if x.get("k") == "un" and x.get("op") == "&":
+            t = X.strip(x["ch"][0])
+            if t.get("k") == "ref" and t.get("d") == d:
+                return False
+        if x.get("k") == "assign":
+            l = X.strip(x["ch"][0])
+            if l.get("k") == "ref" and l.get("d") == d:
+                if x.get("op") in ("+=", "-="):
+                    continue
+                r = X.strip(x["ch"][1])
+                if x.get("op") == "=" and r.get("k") == "bin" and r.get("op") in ("+", "-") and X.strip(r["ch"][0]).get("d") == d:
+                    continue
+                return False
+        if x.get("k") == "decl":
+            for dcl in x.get("decls", ()):
+                if dcl["d"] == d:
+                    return False
+    return True
+
+
+def check_item_loop(chk, rule, fn, loop, what, cursors=()):
+    """the loop's cross-iteration state is confined to its cursors and counters: a local may carry a value into the next
+    iteration only if the loop condition reads it, it is one of the given cursors, or every definition of it inside the loop
+    moves it relative to itself (x++, x += n).  Anything else is per-item state that must be re-established for every item."""
     carried = loop_carried(fn, loop)
-    hv = header_vars(loop)
-    extra = sorted(d for d in carried if d not in hv)
+    hv = header_vars(loop) | set(cursors)
+    extra = sorted(d for d in carried if d not in hv and not self_relative_only(fn, loop, d))
     from .report import canon
     if not extra:
         chk.ob(rule, fn.name, "item-loop-state", True, loc=fn.loc(loop),
-               proof="loop-carried locals {%s} are all named by the loop header" % ", ".join(sorted(var_name(fn, d) for d in carried)))
+               proof="loop-carried locals {%s} are cursors/counters of the loop" % ", ".join(sorted(var_name(fn, d) for d in carried)))
     for d in extra:
         dn, un = carried[d]
         chk.ob(rule, fn.name, "item-loop-state:%s" % canon(fn, dn)[:40], False, loc=fn.loc(un or dn),
